@@ -35,7 +35,7 @@ CHECKS = {
         "text": "Exhaustive within bounds, exact arithmetic: the identities (div curl = 0; 2-D curl of a stream function divergence-free and curl-curl = wide five-point negative Laplacian; forcing update = prefactor * library curl; penalised update = forcing update of the difference) are linear in the field, so they are decided on a grid by the unit impulses; every impulse (component x cell) of non-cubic grids is pushed through the real wrapper closures on Fraction arrays and compared with ==. The 3-D simulator's own divergence monitor is additionally driven after a curl-type update.",
         "design_ref": "DESIGN.md section 5 C12, section 4.2",
         "note": "Trusted: interpreter exact mode on captured kernels (bound by conformance replay); enumerated grid shapes only.",
-        "technique": "basis enumeration (all unit impulses) in exact rational arithmetic through the real kernel wrappers",
+        "technique": "basis enumeration (all unit impulses) in exact rational arithmetic through the real kernel wrappers (keyword and positional calls); the update identity repeated on the generated code with mixed argument layouts; simulator monitor with transport on grids long along each axis",
     },
     "C04": {
         "text": "Exhaustive within bounds: (a) the face-flux identity is checked on the captured front/back ENO3 kernels for every ordered pair of face velocities of the alphabet (all sign patterns, exact ties, signed zeros, denormals) and every nodal impulse, on every axis in 2-D and 3-D, in exact arithmetic and IEEE double; (b) telescoping of every conservative operator is checked for every interior impulse in exact arithmetic through the public wrappers; (c) a deviation-bounded lattice over simulator configurations and field patterns checks the grid sum across a real time_step.",
@@ -107,7 +107,7 @@ CHECKS = {
         "text": "Exhaustive within bounds: every public generator x option combination (95 tuples) x precision x four shapes from the minimal admissible size up (non-cubic) x four binding kinds (contiguous, every-other-element strided, offset slice of a larger array, Fortran-ordered) x dense and impulse patterns; outputs pre-filled with a NaN-payload sentinel; values on the documented region compared with closed-form NumPy references, everything else (rest of outputs, all inputs, the parent arrays around views) compared as raw bytes. A per-case negative control proves the comparison sees a 0.1% error. Thorough tier repeats everything on the real pystencils->g++ back end.",
         "design_ref": "DESIGN.md section 5 C13, section 4.1",
         "note": "Quick tier runs the captured assignment collections on the interpreter, which is bound to the generated code by conformance replay (contiguous and strided bindings, all shapes minimal..minimal+2). Two value patterns per case.",
-        "technique": "full product lattice generator x options x shape x binding x pattern with closed-form and byte-equality oracles",
+        "technique": "full product lattice generator x options x shape x binding x pattern x scalar-argument value/type x call style (keyword, positional, in place, temporary views) with closed-form and byte-equality oracles; every generator once more on the generated code with a different memory layout per argument",
     },
     "C19": {
         "text": "Exhaustive within bounds: Brinkmann penalisation (all Eulerian variants and the Lagrangian one) over the full product of the (u, u_b, lambda, chi) alphabets incl. 1e6 and 1e9; the characteristic function over the level-set alphabet with +-1 ulp around +-blend width; boundary damping over widths 0..6 x shapes from 2w+1 x five patterns x scalar/vector, 2-D/3-D; filters: exact impulse responses for orders 1..4 and both types give the Fourier symbol on the full (2 pi/12) Z_12^3 lattice (in [0,1], 1 at 0, 0 at the checkerboard), constants/checkerboard in exact arithmetic, and a BFS over work-buffer histories (NaN / 1e30 poison) shows independence of prior buffer contents.",
@@ -119,7 +119,7 @@ CHECKS = {
         "text": "Exhaustive within bounds on the model of every generated kernel (the captured assignment collection + iteration region, bound to the generated code by conformance replay): all permutations of 4-6 cell updates along each axis and of the 2^d block executed on real bytes must give one final state; two threads owning two cells each with every cell update split into read and write steps - all 70 interleavings x all 24 assignments per axis - must equal the sequential result; all pairs of cell updates must commute. A call-site monitor inspects every kernel call of real simulator steps over the configuration lattice (and of the interaction path) for outputs overlapping neighbour-read or differently indexed inputs. Spreading order is decided with power-of-two weights and forces 2^60, 1, -2^60 for which every accumulation order yields different bytes, under NUMBA_NUM_THREADS 1 and 4; no closure may be compiled parallel. Negative controls (loop-carried kernel, aliased call) must be reported on every run.",
         "design_ref": "DESIGN.md section 5 C15, section 4.4",
         "note": "Schedules are explored on the model at cell-update granularity; hardware memory ordering, vectorisation width and false sharing are not modelled - they cannot change results if the dependence structure checked here holds (argument, not observation). Real OpenMP runs are a supplementary thorough-tier pass only.",
-        "technique": "stateless schedule exploration (all iteration orders, all read/write interleavings of two threads, pairwise commutation) on captured kernel models + call-site aliasing monitor on the real code",
+        "technique": "stateless schedule exploration (all iteration orders, all read/write interleavings of two threads, pairwise commutation) on captured kernel models + call-site aliasing monitor on the real code + enumeration of numba thread counts {1,2,3,4,7} (fresh process each) for spreading order and every forcing grid's force transfer",
     },
     "C18": {
         "text": "Exhaustive within bounds: for coupled flow-body runs of K steps (NS2D + moving/rotating rigid cylinder; NS3D + sphere with filter / fast-diagonalisation variants) following the upstream loop, EVERY checkpoint index 0..K is written through the IO layer, loaded into freshly constructed simulator / body / interaction objects, scratch arrays are poisoned (none / all / each single buffer) and the run is continued; every later step is compared with the uninterrupted trajectory. The restart helper is driven over all subsets of checkpoint names, every creation order of larger name sets, and equal/different body times.",
